@@ -330,19 +330,46 @@ def _make_ops(names):
     return mk
 
 
-def exec_schedule(names, schedule, line_files, record_trace=False):
+COARSE_FILES = {"optimisation.py", "colors.py", "cm_colors.py", "color_parser.py", "main.py"}
+
+
+_LOOPS = {}
+
+
+def _loop_lines():
+    if "v" not in _LOOPS:
+        import glob
+
+        _LOOPS["v"] = sched.loop_header_lines(glob.glob(os.path.join(_pkg_dir(), "core", "*.py")) + glob.glob(os.path.join(_pkg_dir(), "cli", "*.py")))
+    return _LOOPS["v"]
+
+
+def exec_schedule(names, schedule, line_files, record_trace=False, call_files=None, loops_only=False):
     """(runs in a forked child)"""
     import cm_colors  # noqa
 
-    r = sched.run_schedule(_make_ops(names), {int(k): v for k, v in schedule.items()}, _pkg_dir(), line_files, record_trace)
+    r = sched.run_schedule(_make_ops(names), {int(k): v for k, v in schedule.items()}, _pkg_dir(), line_files, record_trace, call_files,
+                           _loop_lines() if loops_only else None)
     r["results"] = [norm(list(x)) if x is not None else None for x in r["results"]]
     return r
 
 
+def _gran(granularity):
+    """line: every line of the four core files + every call in the package; call: every call in the package;
+    loop: loop-header lines (one point per loop iteration) + calls of functions defined in the core/CLI files."""
+    if granularity == "line":
+        return LINE_FILES, None, False
+    if granularity == "call":
+        return set(), None, False
+    if granularity == "loop":
+        return LINE_FILES | {"conversions.py", "color_metrics.py", "main.py"}, COARSE_FILES, True
+    raise ValueError(granularity)
+
+
 def judge_schedule(wname, names, schedule, refs, granularity, want_points=False):
     case = {"kind": "schedule", "workload": wname, "ops": list(names), "schedule": {str(k): v for k, v in schedule.items()}, "granularity": granularity}
-    lf = LINE_FILES if granularity == "line" else set()
-    status, r = forked(exec_schedule, names, schedule, lf)
+    lf, cf, loops = _gran(granularity)
+    status, r = forked(exec_schedule, names, schedule, lf, False, cf, loops)
     if status != "ok":
         return [dict(sig="schedule/harness", case=case, msg="execution failed: %s" % r)], None
     out = []
@@ -422,7 +449,7 @@ def run(ctx):
         "(2) that reference table recomputed under PYTHONHASHSEED in {0,1,2,12345,random}; (3) %d multi-thread workloads under a controlled "
         "scheduler (scheduling points = line events in optimisation/colors/cm_colors/color_parser, call events elsewhere in the package): "
         "every schedule with <= 1 pre-emption at line granularity%s. non-trivial = sequences of >= 2 operations and schedules with >= 1 pre-emption."
-        % (depth, len(ops), len(WORKLOADS), "" if q else " and <= 2 pre-emptions at call granularity on the cheapest workloads")
+        % (depth, len(ops), len(WORKLOADS), "" if q else " and <= 2 pre-emptions at loop granularity (one point per loop iteration + calls of core/CLI functions)")
     )
     # ---- references (fresh exec per operation) and hash seeds ----------------------------------------
     all_ops = sorted(set(ops) | {n for w in WORKLOADS.values() for n in w})
@@ -509,22 +536,22 @@ def run(ctx):
     ctx.sample({"subcheck": "schedule", "workload": "W1", "ops": WORKLOADS["W1"], "schedule": {"412": 1}, "granularity": "line"})
     ctx.cov["schedule_outcomes_note"] = "one distinct outcome per workload (the sequential results) is the expected, non-vacuous reading: see DESIGN.md 4/C15"
     if not q:
-        # <= 2 pre-emptions at call granularity
+        # <= 2 pre-emptions at loop granularity (one point per loop iteration + calls of core/CLI functions), every workload
         t2 = 0
         jobs = []
         per2 = {}
-        for wname in ("W1", "W2r", "W5"):
-            names = WORKLOADS[wname]
-            st, r = forked(exec_schedule, names, {}, set(), False)
+        lf, cf, loops = _gran("loop")
+        for wname, names in WORKLOADS.items():
+            st, r = forked(exec_schedule, names, {}, lf, False, cf, loops)
             pts = r["points"]
             firsts = [(i, alt) for (i, tid, mask) in pts for alt in range(len(names)) if alt != tid and mask >> alt & 1]
-            per2[wname] = {"call_points": len(pts), "first_preemptions": len(firsts)}
+            per2[wname] = {"loop_points": len(pts), "first_preemptions": len(firsts)}
             for f in firsts:
-                jobs.append((wname, names, f, refs, "call"))
+                jobs.append((wname, names, f, refs, "loop"))
         for wname, cnt, vs, oc in ctx.pmap(second_level, jobs, chunksize=2):
             t2 += cnt
             ctx.add_violations(vs)
-        ctx.sub("schedules_2_preemptions_call", states=t2, transitions=t2, evaluations=t2, traces=t2, distinct_nontrivial=t2, exhaustive=True, workloads=per2)
+        ctx.sub("schedules_2_preemptions_loop", states=t2, transitions=t2, evaluations=t2, traces=t2, distinct_nontrivial=t2, exhaustive=True, workloads=per2)
     ctx.assumptions += [
         "scheduling points are trace events (lines / calls), not bytecodes; CPython with the GIL; every execution starts in a child forked from an "
         "interpreter that imported the library and called nothing",
